@@ -112,7 +112,7 @@ class Ig:
         return (self.start, ()) in gen
 
 
-def product(ig, nfa, start="S"):
+def product(ig, nfa, start="S", tkey=lambda t: "s:" + t):
     """reference product of an indexed grammar with an epsilon-free view of a models.fa.Nfa: the
     non-terminal (p, A, q) derives the words of A that lead the automaton from p to q (epsilon
     closures folded into the steps).  Returns (Ig over triples, set of goal triples)."""
@@ -129,7 +129,7 @@ def product(ig, nfa, start="S"):
                     for q in clo[p]:
                         rules.append(("E", (p, r[1], q), "e"))
                 else:
-                    for q in step(p, "s:" + r[2]):
+                    for q in step(p, tkey(r[2])):
                         rules.append(("E", (p, r[1], q), r[2]))
         elif r[0] == "D":
             for p in Q:
@@ -150,7 +150,8 @@ def product(ig, nfa, start="S"):
     return Ig(rules, start=None), goals
 
 
-def product_is_empty(ig, nfa, start="S"):
-    pig, goals = product(ig, nfa, start)
+def product_is_empty(ig, nfa, start="S", tkey=lambda t: "s:" + t):
+    """tkey: the automaton-side key of a terminal name (plain strings by default)"""
+    pig, goals = product(ig, nfa, start, tkey)
     g = pig.gen_empty_stack()
     return not (goals & g)
